@@ -240,6 +240,9 @@ def r1_search_parameters(run, w):
     if f is None:
       raise AnalysisError("FindOps.%s: bisect function not recognised in %s" % (name, short(c)))
     want = FIND_TABLE[name]
+    if sh is None or sent is None:
+      raise AnalysisError("FindOps.%s: cannot read shift / sentinel row id in %s"
+                          % (name, short(c)))
     ok = (sh, sent) == want and valse is not None and text(valse) == va
     run.ob(R1, site, "%s: (%s, shift %s, row id %s)" % (name, f, sh, sent),
            "find.%s lands on the record a linear scan would pick: needs shift %d and the %s "
@@ -256,6 +259,8 @@ def r1_search_parameters(run, w):
       raise AnalysisError("FindOps.%s: unrecognised shape" % name)
     f, sh, rowe, valse = triple_of(c)
     own = rowe is not None and text(rowe) == "%s._to_local_row_id(%s)" % (RS, m.params()[1])
+    if f is None or sh is None or not own:
+      raise AnalysisError("FindOps.%s: cannot read the search %s" % (name, short(c)))
     ok = (f, sh) in NEIGHBOUR_TABLE[name] and own and valse is None
     run.ob(R1, m.qualname, "%s: (%s, shift %s, probe = the row itself)" % (name, f, sh),
            "with the row's own key as probe, bisect_left gives its index and bisect_right the "
@@ -292,7 +297,10 @@ def r1_search_parameters(run, w):
     if len(orders) != 1:
       raise AnalysisError("FindOps.rank: cannot tell for which order %s is returned"
                           % short(case.value))
-    seen[orders[0]] = (case.stmt, case.value, _linear(v, lambda e: text(e) == ctext, lenexprs))
+    lin = _linear(v, lambda e: text(e) == ctext, lenexprs)
+    if lin is None:
+      raise AnalysisError("FindOps.rank: cannot read %s as index/length arithmetic" % short(v))
+    seen[orders[0]] = (case.stmt, case.value, lin)
   for order in ("asc", "desc"):
     got = seen.get(order)
     want = RANK_TABLE[(order, f)]
@@ -367,7 +375,12 @@ def r2_index_guard(run, w):
     raise AnalysisError("RecordSet._at: the index parameter is reassigned")
   for s in subs:
     seq = _xname(fn, s.value)
-    lo, hi = _bounds(_expr_atoms(fn.node, s), idx, seq)
+    atoms = _expr_atoms(fn.node, s)
+    lo, hi = _bounds(atoms, idx, seq)
+    if not (lo and hi) and any(not isinstance(t, (ast.Compare, ast.Name, ast.Attribute,
+                                                  ast.Constant)) for (t, p) in atoms):
+      raise AnalysisError("RecordSet._at: cannot read the guard %s of %s" % (
+        "; ".join(short(t) for (t, p) in atoms), short(s)))
     run.ob(R2, fn.qualname, short(s), "the subscript is evaluated only when 0 <= %s (no "
            "negative wrap-around: find.lt/previous before the first row must not yield the last "
            "row)" % idx, lo, fi=fn.fi, node=s)
@@ -452,6 +465,13 @@ def r3_find_eq(run, w):
   for case in cases:
     if is_empty_record(case.value) and any(p is True and strictness(t) for (t, p) in case.atoms):
       good = True
+  if not tests:
+    # no comparison of the two keys was recognised: dropped, or written in a way we cannot read?
+    for n in cfg.nodes:
+      if n.kind == "if" and not all(is_found(t) for (t, p) in H.split_guard(n.stmt.test, True)):
+        raise AnalysisError("_find_eq: cannot read the test %s" % short(n.stmt.test))
+    if any(not (is_found(c.value) or is_empty_record(c.value)) for c in cases):
+      raise AnalysisError("_find_eq: cannot read what is returned")
   run.ob(R3, fn.qualname, "if key(found._row_id, %s) < key(found._row_id): return <empty record>"
          % va, "the row found by bisection is at-or-after the probe; it is an equal match only "
          "if the probe is not strictly before it", good,
@@ -493,6 +513,11 @@ def r4_prevnext(run, w):
         isinstance(c.func.value, ast.Attribute) and c.func.value.attr in ("_find", "find") and \
         isinstance(c.func.value.value, ast.Call) and \
         dotted(c.func.value.value.func) == "_sorted_lookup"
+    if not (isinstance(c.func, ast.Attribute) and c.func.attr in fo.methods and
+            isinstance(c.func.value, ast.Attribute) and c.func.value.attr in ("_find", "find") and
+            isinstance(c.func.value.value, ast.Call) and
+            dotted(c.func.value.value.func) == "_sorted_lookup"):
+      raise AnalysisError("%s: cannot read the search %s" % (fn.qualname, short(c)))
     target = fo.methods.get(name.lower())
     if ok and target is not None:
       lb = H.bind_args(c.func.value.value, sl.fi, skip_self=False)
@@ -516,10 +541,14 @@ def r4_prevnext(run, w):
   rs = _returned(sl, flow)
   ok = len(rs) == 1 and isinstance(rs[0][1], ast.Call) and \
       text(rs[0][1].func) == rec + "._table.lookup_records"
+  if not ok:
+    raise AnalysisError("_sorted_lookup: cannot read what it returns")
   if ok:
     c = rs[0][1]
     kws = {k.arg: k.value for k in c.keywords}
     d = kws.get(None)
+    if d is not None and not isinstance(d, ast.DictComp):
+      raise AnalysisError("_sorted_lookup: cannot read the group criteria %s" % short(d))
     ok = not c.args and set(kws) == {None, "order_by"} and text(kws["order_by"]) == "order_by" \
         and isinstance(d, ast.DictComp) and len(d.generators) == 1 and \
         text(d.generators[0].iter) == "group_by" and \
